@@ -8,6 +8,7 @@
               P/<node>/<op>      replace_op(node, op)
               U | D | G          unwrap_nodes() | remove_identity() | group_one_qubit_gates()
               E/<t>[/<size>]     add_emitter/photonic/classical_register(size)
+              C                  continue on `circuit.copy()`
       op:     <ClassName>:<qregs .-separated>:<cregs>:<labels>:<wrapped classes>      (`*` = empty)
       node:   e0_in | p2_out | 17          edge:  <node>><node>><key>
       qs (aligned with edits, `*` = nothing):  +-joined from  d (depth) r (register_depth) v (validate)
@@ -78,7 +79,7 @@ def showOp (op : Op) : String :=
 
 inductive Edit where
   | add (op : Op) | ins (op : Op) (es : List Edge) | rm (n : NodeId) | rep (n : NodeId) (op : Op)
-  | unwrap | rmid | group | reg (t : RegType) (size : Nat)
+  | unwrap | rmid | group | reg (t : RegType) (size : Nat) | copy
 
 def parseEdit (s : String) : Option Edit :=
   match splitChar '/' s with
@@ -95,6 +96,7 @@ def parseEdit (s : String) : Option Edit :=
   | ["U"] => some .unwrap
   | ["D"] => some .rmid
   | ["G"] => some .group
+  | ["C"] => some .copy
   | ["E", t] => (t.toList.head?.bind parseRegType).map fun t => Edit.reg t 1
   | ["E", t, sz] => do
     let t ← t.toList.head?.bind parseRegType
@@ -111,6 +113,7 @@ def applyEdit (c : Dag) : Edit → Dag.Res
   | .rmid => c.removeIdentity
   | .group => c.groupOneQubitGates
   | .reg t sz => c.addRegister t sz
+  | .copy => (c, none)   -- `circuit = circuit.copy()` (deep copy): the pure model is its own copy
 
 /-! ### canonical state -/
 
